@@ -926,6 +926,22 @@ class Mini:
     def mcall(self, n, env):
         m = H.mcall(n)
         p, nm = m["path"], m["name"]
+        if p.startswith("std::option::Option::<T>::") and nm in ("replace", "take", "insert"):
+            # methods that mutate the Option in place: the receiver must be a field of a struct value
+            place = H.strip_refs(m["recv"])
+            if H.tag(place) == "field":
+                base = self.ev(place[1], env)
+                if isinstance(base, Ref):
+                    base = base.get()
+                if isinstance(base, tuple) and base and base[0] == "struct" and place[2] in base[2]:
+                    old = base[2][place[2]]
+                    if nm == "take":
+                        base[2][place[2]] = "None"
+                        return old
+                    val = self.ev(m["args"][0], env)
+                    base[2][place[2]] = ("Some", val)
+                    return old if nm == "replace" else val
+            raise Unsupported(f"Option::{nm} on a place that is not a struct field")
         recv = self.ev(m["recv"], env)
         args = [self.ev(a, env) for a in m["args"]]
         for suffix, f in getattr(self, "overrides", {}).items():
